@@ -70,6 +70,7 @@ f53f4fe C17 C17.regrow
 8551e7c C09 C09.cutnulls
 6ed1442 C04 C04.viewstate
 35991d0 C04 C04.offsetsrc
+ebbf229 C08 C08.errexit
 50c76da C14 C14.chunkeof
 LIST
 git -C /repo worktree remove --force $WT
